@@ -492,4 +492,89 @@ Proof.
       * destruct (permits s); [congruence|discriminate].
 Qed.
 
+(* ---- completeness of the cycle report ---- *)
+Notation gpath := (gpath g).
+Notation reachable_from_req := (reachable_from_req g req).
+
+(* the nodes of a path, each with its successor on the path *)
+Lemma gpath_nodes a b : gpath a b ->
+  exists l, (forall x, In x (a :: l) -> exists y, In y (l ++ [b]) /\ In y (imports g x)) /\
+            (forall x, In x l -> gpath a x /\ gpath x b).
+Proof.
+  induction 1 as [a b Hab|a b c Hab Hbc IH].
+  - exists []. split; [|intros x []]. intros x [<-|[]]. exists b. split; [left; reflexivity|assumption].
+  - destruct IH as (l & Hs & Hp). exists (b :: l). split.
+    + intros x [<-|Hx].
+      * exists b. split; [left; reflexivity|assumption].
+      * destruct (Hs x Hx) as (y & Hy & Hyx). exists y. split; [right; assumption|assumption].
+    + intros x [<-|Hx].
+      * split; [apply gp_one; assumption|assumption].
+      * destruct (Hp x Hx) as [A B]. split; [eapply gp_step; eassumption|assumption].
+Qed.
+
+Lemma reach_closed a b : reachable_from_req a -> gpath a b -> reachable_from_req b.
+Proof.
+  intros [Ha|(r & Hr & Hp)] Hab; right.
+  - exists a. auto.
+  - exists r. split; [assumption|]. eapply gpath_trans; eassumption.
+Qed.
+
+Theorem cycle_report_complete s : reach s -> final g s = true ->
+  (forall x, reachable_from_req x -> rres g x = ROk) ->
+  (exists c, reachable_from_req c /\ gpath c c) ->
+  cycle_reported g s = true.
+Proof.
+  intros Hr Hfin Hres (c & Hcr & Hcc).
+  destruct (reach_inv3 _ Hr) as (Hi1 & Hi2 & Hi3).
+  pose proof Hi1 as [Ht1 _]. pose proof Hi2 as [Ht2 [Hrq _]]. pose proof Hi3 as [Ht3 _].
+  destruct (cycle_reported g s) eqn:Ecr; [reflexivity|exfalso].
+  assert (Hlt : forall f, created s f = true -> f < nfiles g).
+  { intros f Hc. destruct (le_lt_dec (nfiles g) f) as [Hle|]; [|assumption].
+    apply (i1_out _ _ _ (Ht1 f)) in Hle. unfold created in Hc. rewrite Hle in Hc. discriminate. }
+  assert (Hnocyc : forall f sq d, tpc (tasks s f) <> PDone (Some (FCycle sq d))).
+  { intros f sq d Hf.
+    assert (cycle_reported g s = true); [|congruence].
+    apply existsb_exists. exists f. split; [|rewrite Hf; reflexivity].
+    apply in_seq. assert (created s f = true) by (unfold created; rewrite Hf; reflexivity).
+    apply Hlt in H. lia. }
+  (* a finished resolvable task that did not report a cycle created all its dependencies *)
+  assert (Hnext : forall a b, reachable_from_req a -> created s a = true -> In b (imports g a) ->
+                  created s b = true).
+  { intros a b Hra Hca Hab.
+    destruct (final_done g s a Hfin (Hlt a Hca) Hca) as (r & Hd).
+    apply (i3_deps _ _ (Ht3 a)); [|assumption]. rewrite Hd.
+    pose proof (i2_res _ _ _ _ (Ht2 a)) as Hrs. rewrite Hd in Hrs. pose proof (Hres a Hra) as Hok.
+    destruct r as [[| | |sq d|d]|]; try reflexivity; try congruence.
+    exfalso. eapply Hnocyc; eassumption. }
+  assert (Hall : forall a b, gpath a b -> reachable_from_req a -> created s a = true -> created s b = true).
+  { induction 1 as [a b Hab|a b c' Hab Hbc IH]; intros Hra Hca.
+    - eapply Hnext; eassumption.
+    - apply IH; [eapply reach_closed; [eassumption|apply gp_one; assumption]|eapply Hnext; eassumption]. }
+  assert (Hcre : forall x, reachable_from_req x -> created s x = true).
+  { intros x [Hx|(r & Hr' & Hp)]; [apply Hrq; assumption|].
+    apply (Hall r x Hp); [left; assumption|apply Hrq; assumption]. }
+  destruct (gpath_nodes c c Hcc) as (l & Hsucc & Hon).
+  apply (no_stuck_set s Hi1 Hi3 (length (c :: l)) (c :: l) (le_n _)); [discriminate|].
+  intros x Hx.
+  assert (Hxr : reachable_from_req x /\ gpath x x).
+  { destruct Hx as [<-|Hx]; [auto|]. destruct (Hon x Hx) as [A B].
+    split; [eapply reach_closed; eassumption|eapply gpath_trans; eassumption]. }
+  destruct Hxr as [Hxr Hxx].
+  destruct (Hsucc x Hx) as (y & Hy & Hyx).
+  assert (HyC : In y (c :: l)).
+  { apply in_app_or in Hy. destruct Hy as [Hy|[<-|[]]]; [right; assumption|left; reflexivity]. }
+  split; [|exists y; auto].
+  pose proof (Hcre x Hxr) as Hcx.
+  destruct (final_done g s x Hfin (Hlt x Hcx) Hcx) as (r & Hd). rewrite Hd.
+  pose proof (i2_res _ _ _ _ (Ht2 x)) as Hrs. rewrite Hd in Hrs. pose proof (Hres x Hxr) as Hok.
+  destruct r as [[| | |sq d|d]|]; try reflexivity; try congruence.
+  - (* link failure: all dependencies succeeded, but y is on a cycle *)
+    exfalso. pose proof (i2_link _ _ _ _ (Ht2 x) Hd y Hyx) as Hyok.
+    assert (gpath y y).
+    { destruct HyC as [<-|HyC]; [assumption|]. destruct (Hon y HyC) as [A B]. eapply gpath_trans; eassumption. }
+    destruct (i2_ok _ _ _ _ (Ht2 y) Hyok) as (_ & _ & _ & Hn). contradiction.
+  - exfalso. eapply Hnocyc; eassumption.
+  - exfalso. destruct (i2_ok _ _ _ _ (Ht2 x) Hd) as (_ & _ & _ & Hn). contradiction.
+Qed.
+
 End Exec3.
